@@ -94,4 +94,10 @@ META = {
         "note": "Domains are explicit hypotheses (see the table at the top of Props/C06.v); where an earlier greedy field needs a later field to be space-free (shell; path in revoked-key forms) the wider domain is covered by correspondence + oracle only. A certificate key id that itself contains a complete ' from A port N sshX: ALG:SUM' fragment hijacks the greedy fields (Example C06_example_keyid_hijack): outside the property's stated key-id domain, recorded as an observation.",
         "technique": "Coq proof per message form over generated regex ASTs + model/implementation correspondence + by-construction oracle",
     },
+    "C10": {
+        "text": "Coq theorems C10_causal (for every interleaving of the two pipelines' atomic actions in which a login is handed over only after its UserLogin was written, every UserAction entry of the output is preceded by the UserLogin of the login whose identity it carries) and C10_once (the UserAction entries of the output are exactly the correlator's emissions, each once, in order), built on the tracker invariant. The implementation is exercised at processor level: real sshd processor and real Auditd.Read concurrently on one event writer and an unbuffered channel under the race detector, every Write call recorded and required to be exactly one complete JSON line, no duplicates, causal order.",
+        "design_ref": "DESIGN.md 6/C10",
+        "note": "Partial: torn or interleaved lines cannot be exhibited by the model (one append per event); kernel O_APPEND atomicity and json.Encoder issuing one Write per Encode are observed, not proved.",
+        "technique": "Coq proof (induction over runs using the tracker invariant) + concurrent differential execution with a recording writer under -race",
+    },
 }
